@@ -7,6 +7,8 @@ mod evolution;
 mod features;
 pub mod serializer;
 mod state;
+#[cfg(kani)]
+mod verif_map;
 
 use bytes::{Bytes, BytesMut};
 use std::fmt::{Display, Formatter};
